@@ -70,20 +70,21 @@ Section WithOracle.
   Variable O : oracle.
   Variable var : variant.
 
+  (* the replace-or-insert part of AddVersion, on the package's slice *)
+  Definition add_to_list (versions : list version) (v : version) : list version :=
+    let existed := existsb (same_key (v_key v)) versions in
+    let replaced :=
+      map (fun w => if same_key (v_key v) w
+                    then match var with Current => w | _ => v end
+                    else w) versions in
+    if existed
+    then match var with FixAssignSort => sort_versions O replaced | _ => replaced end
+    else sort_versions O (replaced ++ [v]).
+
   Definition add_version (c : client) (v : version) (deps : list reqver) : client :=
     if deleted v then c
     else
-      let versions := pkg_list_or_nil c (v_pkg v) in
-      let existed := existsb (same_key (v_key v)) versions in
-      let replaced :=
-        map (fun w => if same_key (v_key v) w
-                      then match var with Current => w | _ => v end
-                      else w) versions in
-      let versions' :=
-        if existed
-        then match var with FixAssignSort => sort_versions O replaced | _ => replaced end
-        else sort_versions O (replaced ++ [v]) in
-      let c1 := set_pkg c (v_pkg v) versions' in
+      let c1 := set_pkg c (v_pkg v) (add_to_list (pkg_list_or_nil c (v_pkg v)) v) in
       let deps' := sort_deps deps in
       let c2 := set_imports c1 (v_key v) deps' in
       fold_left register_pkg deps' c2.
